@@ -33,12 +33,13 @@ type Engine struct {
 	verbose       bool
 	luaTrusted    []string
 	notDecided    map[string][]string
+	lemmaUsed     map[string]bool
 }
 
 func newEngine(repo, verif string) *Engine {
 	return &Engine{repo: repo, verif: verif, cs: newContractSet(), pkgs: map[string]*packages.Package{}, famSorts: map[string]Sort{},
 		trusted: map[string]map[string]bool{}, meta: map[string]map[string]bool{}, contractDirs: map[string]string{},
-		funcDecls: map[string]*ast.FuncDecl{}, funcPkg: map[string]*packages.Package{}, notDecided: map[string][]string{}}
+		funcDecls: map[string]*ast.FuncDecl{}, funcPkg: map[string]*packages.Package{}, notDecided: map[string][]string{}, lemmaUsed: map[string]bool{}}
 }
 
 func (e *Engine) specError(msg string) {
